@@ -285,8 +285,13 @@ def _st_poly(shs):
     four = st.builds(lambda x, yzw: ["poly", x, yzw], _st_plain(shs), three)
     # slash chords as the upper and / or the lower part
     noslash = [sh for sh in shs if "/" not in sh]
-    withslash = st.builds(lambda x, y: ["poly", x, y], _st_slash(noslash, False) | _st_plain(shs), _st_slash(noslash, False) | _st_plain(shs))
-    return st.one_of(two, two, three, four, withslash)
+    # ... also a slash chord over its own root (the bass is then "equal to the note just before" the chord's first note)
+    own = st.builds(lambda p_: ["slash", p_[1], p_[2], p_[3], p_[1]], _st_plain(noslash))
+    part = _st_slash(noslash, False) | own | _st_plain(shs)
+    withslash = st.builds(lambda x, y: ["poly", x, y], part, part)
+    # the empty chord as the lower part: the upper part alone remains, with the same no-repeat rule
+    nc_lower = st.builds(lambda x, nc: ["poly", x, ["nc", nc]], part | own, st.sampled_from(["NC", "N.C."]))
+    return st.one_of(two, two, three, four, withslash, nc_lower)
 
 
 def sub_slash(ctx, shard, n):
